@@ -110,6 +110,11 @@ def programs(tier):
         ("three-runs-one-line", "10 A = BUTTON ( 0 ) + JOYSTK ( 1 ) + INSTR ( 1 , A$ , B$ )"),
         ("text-run-in-string", '10 PRINT "RUN ecb_sound"'),
         ("text-run-in-string", '10 A$ = " RUN ecb_hdraw(" : PRINT A$'),
+        ("text-run-in-string", '10 PRINT "RUN ecb_hscreen" ; A$ ; "!"'),
+        ("text-run-in-string", '10 PRINT "A" ; "RUN ecb_hcls" ; "B" ; "C"'),
+        ("text-run-in-string", '10 A$ = "X" + "RUN ecb_play" + "Y" : B$ = "Z"'),
+        ("text-run-in-data", "10 DATA RUN ecb_play , RUN ecb_hcls , X\n20 READ A$ , B$ , C$"),
+        ("text-run-in-data", '10 DATA "RUN ecb_sound" , 1 , "Q"\n20 READ A$ , B , C$'),
         ("text-run-in-data", "10 DATA RUN ecb_play , X\n20 READ A$ , B$"),
         ("text-procedure-in-string", '10 PRINT "procedure ecb_cls"'),
         ("text-procedure-in-data", "10 DATA procedure foo\n20 READ A$"),
@@ -231,7 +236,11 @@ def regex_lemmas(ctx):
     odd = z3.Concat(even, q, noq)
     s = z3.String("line")
     for nm in ("INVOKED_PROCEDURE_NAMES", "STR_STORAGE_TAG"):
-        body, ahead = rxsmt.split_trailing_lookahead(getattr(procbank, nm))
+        try:
+            body, ahead = rxsmt.split_trailing_lookahead(getattr(procbank, nm))
+        except rxsmt.Unsupported as e:
+            ctx.harness_gap(f"procbank.{nm} is no longer of the form body + trailing look-ahead ({e}): its lemma is not decided")
+            continue
         # a balanced emitted line = prefix . match . rest; prefix has an odd number of quotes = the match starts inside a literal
         inside = z3.Concat(odd, z3.Intersect(body, noq), ahead)
         ctx.stats["obligations"] += 1
